@@ -1,6 +1,7 @@
-// C14 probe: copy construction of RNSsystemFixed<Integer>.  On the unchanged tree this translation unit does
-// not compile (the copy constructor initialises a std::vector with (R._primes, givWithCopy())); the check records
-// that as a known finding.  Once it compiles:  line "fixed n p1..pn r1..rn"  ->  RnsToRing through a COPY.
+// C14 probe: copy construction of RNSsystemFixed<Integer>.  Before commit 380857a this translation unit did
+// not compile (the copy constructor initialised a std::vector with (R._primes, givWithCopy()) and never copied
+// _RNS); it is kept separate from c14_rns.C so that such a regression is reported as this site only.
+//   line "<hist> n p1..pn r1..rn"  ->  RnsToRing through a COPY;  hist = copycold | copywarm | copy2 | copyassign
 #include <iostream>
 #include <sstream>
 #include <string>
@@ -9,18 +10,22 @@
 #include "givinteger.h"
 #include "givrnsfixed.h"
 using namespace Givaro;
+typedef RNSsystemFixed<Integer> FX;
 int main() {
     std::string line;
     while (std::getline(std::cin, line)) {
         std::istringstream in(line);
-        std::string kind; size_t n; in >> kind >> n;
-        std::vector<Integer> P(n), R(n);
+        std::string hist; size_t n; in >> hist >> n;
+        std::vector<Integer> P(n), R(n), ones(n, Integer(1));
         for (size_t i = 0; i < n; ++i) { std::string s; in >> s; P[i] = Integer(s.c_str()); }
         for (size_t i = 0; i < n; ++i) { std::string s; in >> s; R[i] = Integer(s.c_str()); }
-        RNSsystemFixed<Integer>* A = new RNSsystemFixed<Integer>(P);
-        RNSsystemFixed<Integer> B(*A);
-        delete A;
-        Integer V; B.RnsToRing(V, R);
+        Integer V("987654321987654321987654321"), dump;
+        FX* A = new FX(P);
+        if (hist == "copycold") { FX B(*A); delete A; B.RnsToRing(V, R); }
+        else if (hist == "copywarm") { A->RnsToRing(dump, ones); FX B(*A); delete A; B.RnsToRing(V, R); }
+        else if (hist == "copy2") { A->RnsToRing(dump, ones); FX* B = new FX(*A); delete A; FX C(*B); delete B; C.RnsToRing(V, R); }
+        else if (hist == "copyassign") { FX B(*A); FX C; C = B; delete A; C.RnsToRing(V, R); B.RnsToRing(dump, R); if (dump != V) V = -1; }
+        else { delete A; std::cout << "BAD-HIST\n"; continue; }
         std::cout << V << "\n";
     }
     return 0;
